@@ -1,4 +1,5 @@
 #!/bin/bash
+# PHASE=confirm: only step 1 (parallelisable across worktrees); PHASE=check: only steps 2-3 (serial, uses /repo)
 # usage: tools/eval_seed.sh <PROPERTY-ID> <scratch-worktree> <n> [extra check ids...]
 # 1. confirms in the scratch worktree: patch applies, existing tests pass with it, demo fails with it and passes without
 # 2. applies the patch to /repo, runs the quick check(s), restores /repo
@@ -10,25 +11,29 @@ S="$WT/seeded/$N"
 OUT="/verif/seeded/$ID-${SEEDTAG:-}$N"
 export CARGO_NET_OFFLINE=true CARGO_TARGET_DIR="$WT/target"
 [ -f "$S/patch.diff" ] || { echo "no patch at $S"; exit 2; }
+if [ "${PHASE:-all}" != check ]; then
 cd "$WT" && git checkout -q -- . && git clean -fdq -e seeded -e target
 PLACE=$(jq -r '.demo_placement // empty' "$S/meta.json" | awk '{print $1}')
 CMD=$(jq -r '.demo_cmd // empty' "$S/meta.json" | sed 's/ *(fallback.*$//; s/ *(.*$//')
 echo "== demo placement: $PLACE ; cmd: $CMD"
 [ -n "$PLACE" ] && [ -f "$S/demo.rs" ] && mkdir -p "$(dirname "$WT/$PLACE")" && cp "$S/demo.rs" "$WT/$PLACE"
 echo "== [clean] demo must pass"
-( cd "$WT" && eval "$CMD" >/tmp/seed-clean.log 2>&1 ); CLEAN=$?
+( cd "$WT" && eval "$CMD" >/tmp/seed-clean-$ID-$N.log 2>&1 ); CLEAN=$?
 echo "   exit $CLEAN"
 git apply "$S/patch.diff" || { echo "patch does not apply"; exit 2; }
 echo "== [mutated] existing tests must pass"
-( cd "$WT" && [ -n "$PLACE" ] && mv "$WT/$PLACE" /tmp/seed-demo-parked.rs; cargo nextest run --workspace --no-fail-fast --offline >/tmp/seed-tests.log 2>&1 ); TESTS=$?
-tail -2 /tmp/seed-tests.log
-[ -n "$PLACE" ] && [ -f /tmp/seed-demo-parked.rs ] && mv /tmp/seed-demo-parked.rs "$WT/$PLACE"
+( cd "$WT" && [ -n "$PLACE" ] && mv "$WT/$PLACE" /tmp/seed-demo-parked-$ID-$N.rs; cargo nextest run --workspace --no-fail-fast --offline >/tmp/seed-tests-$ID-$N.log 2>&1 ); TESTS=$?
+tail -2 /tmp/seed-tests-$ID-$N.log
+[ -n "$PLACE" ] && [ -f /tmp/seed-demo-parked-$ID-$N.rs ] && mv /tmp/seed-demo-parked-$ID-$N.rs "$WT/$PLACE"
 echo "== [mutated] demo must fail"
-( cd "$WT" && eval "$CMD" >/tmp/seed-mut.log 2>&1 ); MUT=$?
+( cd "$WT" && eval "$CMD" >/tmp/seed-mut-$ID-$N.log 2>&1 ); MUT=$?
 echo "   exit $MUT"
 git checkout -q -- .
 [ -n "$PLACE" ] && rm -f "$WT/$PLACE"
-if [ $CLEAN -ne 0 ] || [ $TESTS -ne 0 ] || [ $MUT -eq 0 ]; then echo "SEED NOT CONFIRMED (clean=$CLEAN tests=$TESTS mutated=$MUT)"; exit 3; fi
+if [ $CLEAN -ne 0 ] || [ $TESTS -ne 0 ] || [ $MUT -eq 0 ]; then echo "SEED NOT CONFIRMED $ID-$N (clean=$CLEAN tests=$TESTS mutated=$MUT)"; exit 3; fi
+echo "CONFIRMED $ID-$N"
+[ "${PHASE:-all}" = confirm ] && exit 0
+fi
 unset CARGO_TARGET_DIR
 echo "== confirmed; running checks against /repo with the patch"
 cd /verif
